@@ -184,6 +184,7 @@ type EditOpts struct {
 	AccessorBody  map[string]string // accessor name -> body
 	StructFor     map[string]string // struct type name -> verbatim declaration
 	NoRandom      bool
+	Raw           bool // write the edited file as typed, without gofmt
 	ValueReceiver map[string]bool
 }
 
@@ -464,6 +465,9 @@ func (w *W) editFile(r *rng.R, path string, o EditOpts) error {
 	out, err := format.Source([]byte(text))
 	if err != nil {
 		return fmt.Errorf("gofmt of edited file: %w\n%s", err, text)
+	}
+	if o.Raw {
+		out = []byte(text)
 	}
 	return os.WriteFile(path, out, 0o644)
 }
